@@ -267,7 +267,7 @@ impl Scenario for C17 {
                     let tail = gen_plain_clock(rng, 400);
                     let first = tail.readings.first().copied().unwrap_or(0);
                     readings.extend(tail.readings.iter().map(|x| last.wrapping_add(x.wrapping_sub(first)).wrapping_add(97)));
-                    spec.clock = Some(crate::seams::clock::ClockSpec { readings, tail_key: tail.tail_key, fork_skews: vec![] });
+                    spec.clock = Some(crate::seams::clock::ClockSpec { readings, tail_key: tail.tail_key, fork_skews: vec![], freeze: None });
                     spec.rounds = Some(r as u8);
                     spec.ops.insert(0, Op::U64);
                     spec.variant = "gen_crafted_value".into();
